@@ -122,3 +122,23 @@ def replay_file(path):
     print(" no native driver; re-run the checker_cmd to see the verifier's trace:")
     print(" ", doc.get("checker_cmd"))
     return 1
+
+
+def run_witness(k):
+    """compile and run the native witness of a recorded finding against the current tree.
+    True = reproduces (exit 1), False = does not (exit 0), None = could not build"""
+    d = tempfile.mkdtemp(prefix="verif-witness-")
+    try:
+        exe = os.path.join(d, "w")
+        cmd = ["gcc", "-std=gnu11", "-O0", "-w", "-I" + core.SRC, os.path.join(VERIF, k["witness_program"])] + \
+              [os.path.join(core.SRC, f) for f in k.get("witness_sources", [])] + ["-lm", "-o", exe]
+        r = subprocess.run(cmd, capture_output=True, text=True)
+        if r.returncode != 0:
+            return None
+        try:
+            r = subprocess.run([exe], capture_output=True, text=True, timeout=120)
+        except subprocess.TimeoutExpired:
+            return None
+        return r.returncode == 1
+    finally:
+        shutil.rmtree(d, ignore_errors=True)
